@@ -1514,6 +1514,20 @@ def generate_methods(fns, gen_dir, write_if_changed):
         txt, params = MethodTr(fns, layout, lname, stmts, doc).translate()
         out.append(txt)
         sig[lname] = params
+        if lname != "Wigner_rotate_rotor":
+            # the loop itself: `for i_R in range(quaternions.shape[0])`; row i_R of the input, row / column i_R of the output (its own array id)
+            per = {"quaternions_row": "Int → Int → α", "function_values_row": "Int → Nat", "function_values_col": "Int → Nat"}
+            if sum(1 for n, _ in params if n in per) != 2:
+                raise TranslationError(f"{lname}: per-rotor parameters {[n for n, _ in params if n in per]}")
+            ps = " ".join(f"({n} : {per.get(n, t)})" for n, t in params)
+            args = " ".join(f"({n} i_R)" if n in per else n for n, _ in params)
+            loop = lname.replace("_rotor", "_loop")
+            out.append(f"/-- `for i_R in range(quaternions.shape[0]):` around `{lname}` -/\n"
+                       f"def {loop} (quaternions_shape0 : Int) {ps} (st : φ) : φ :=\n"
+                       f"  loopN (quaternions_shape0 - (0 : Int)).toNat (fun k (st : φ) =>\n"
+                       f"    let i_R : Int := (0 : Int) + (k : Int)\n"
+                       f"    {lname} (α := α) {args} st) st\n")
+            sig[loop] = [("quaternions_shape0", "Int")] + [(n, per.get(n, t)) for n, t in params]
     out.append("end\nend Gen\n")
     write_if_changed(os.path.join(gen_dir, "MethodKern.lean"), "\n".join(out))
     return sig
